@@ -546,12 +546,19 @@ fn expand_string_assertion(value_expr: &TokenStream, pattern: &PatternString) ->
         // Take a reference to the expression result so that:
         // 1. Temporaries (e.g. from method calls returning String) live for the
         //    entire block - fixes E0716 "temporary dropped while borrowed".
+        //    A `match` scrutinee keeps EVERY temporary of the expression alive
+        //    (a `let` only the outermost one), so chains such as
+        //    `name.clone().as_str()` or `cell.borrow().as_deref()` work too.
         // 2. Reference-typed expressions (e.g. from index operations) are not
         //    moved - fixes E0507 "cannot move out of shared reference".
-        let __assert_struct_tmp = &(#value_expr);
-        let __assert_struct_actual = (*__assert_struct_tmp).as_ref();
-        if !matches!(__assert_struct_actual, #lit) {
-            #error_push
+        match &(#value_expr) {
+            __assert_struct_scrutinee => {
+                let __assert_struct_tmp = __assert_struct_scrutinee;
+                let __assert_struct_actual = (*__assert_struct_tmp).as_ref();
+                if !matches!(__assert_struct_actual, #lit) {
+                    #error_push
+                }
+            }
         }
     }}
 }
